@@ -8,6 +8,10 @@ use super::rng::Rng;
 enum Mode {
     Random(Rng),
     Replay(Vec<u64>),
+    /// coverage-guided fuzzing: the tape is what the fuzzer mutates (16-bit words); a word is reduced
+    /// modulo the number of alternatives (not clamped) so that every byte value reaches every
+    /// alternative; `used` records the reduced choices, i.e. an ordinary replay tape
+    Fuzz(Vec<u64>),
 }
 
 pub struct Gen {
@@ -27,6 +31,11 @@ pub struct Gen {
 impl Gen {
     pub fn random(rng: Rng) -> Self {
         Gen { mode: Mode::Random(rng), pos: 0, used: Vec::new(), spans: Vec::new(), max_draws: 200_000, spill: std::ptr::null_mut(), spill_cap: 0 }
+    }
+    /// tape read from fuzzer bytes: two bytes per draw (little endian)
+    pub fn fuzz(data: &[u8]) -> Self {
+        let tape: Vec<u64> = data.chunks(2).map(|c| c[0] as u64 | ((*c.get(1).unwrap_or(&0) as u64) << 8)).collect();
+        Gen { mode: Mode::Fuzz(tape), pos: 0, used: Vec::new(), spans: Vec::new(), max_draws: 200_000, spill: std::ptr::null_mut(), spill_cap: 0 }
     }
     pub fn replay(tape: Vec<u64>) -> Self {
         Gen { mode: Mode::Replay(tape), pos: 0, used: Vec::new(), spans: Vec::new(), max_draws: 200_000, spill: std::ptr::null_mut(), spill_cap: 0 }
@@ -61,6 +70,19 @@ impl Gen {
             Mode::Replay(t) => {
                 let v = t.get(self.pos).copied().unwrap_or(0);
                 v.min(n - 1)
+            }
+            Mode::Fuzz(t) => {
+                if n > 1 << 16 {
+                    // wide draws (float bit patterns, large ranges) take four tape words
+                    let mut v = 0u64;
+                    for k in 0..4 {
+                        v |= t.get(self.pos + k).copied().unwrap_or(0) << (16 * k);
+                    }
+                    self.pos += 3;
+                    if n == u64::MAX { v } else { v % n }
+                } else {
+                    t.get(self.pos).copied().unwrap_or(0) % n
+                }
             }
         };
         self.pos += 1;
@@ -167,7 +189,7 @@ impl Gen {
         // recorded flags encode it.
         let target = match &mut self.mode {
             Mode::Random(r) => min + r.below((max - min) as u64 + 1) as usize,
-            Mode::Replay(_) => 0,
+            Mode::Replay(_) | Mode::Fuzz(_) => 0,
         };
         let mut out = Vec::new();
         loop {
